@@ -29,6 +29,7 @@ From PLV Require Import Base.PyStr Tok.PState Tok.Tokenizer Parse.Nodes Parse.Pa
 From PLV Require Import Proofs.PStateProofs Proofs.ParserModesSpec Proofs.ParserModesDecl
                         Proofs.ParserModesState Proofs.ParserModes Proofs.ParserModesDollars
                         Proofs.ParserModesDollarsBounded.
+From PLV Require Import Doc.DocGrammar Proofs.ComposeDollars.
 Import ListNotations.
 
 (** * The specification *)
@@ -143,8 +144,10 @@ Proof. exact math_token_delims_ok. Qed.
 
 (** * C10_dollars
 
-    Full statement of DESIGN section 6 (NOT proved; it needs the grammar
-    round trip C02 for dollar documents):
+    Full statement of DESIGN section 6 (it needs the grammar round trip C02
+    for dollar documents; now proved for the dollar documents of the core
+    document grammar, all sizes: see [C10_dollars_grammar_partial] at the end of
+    this file):
 
       Theorem C10_dollars : forall d, ok_doc ctx0 d = true -> dollar_doc d ->
         math_nodes (parse strict ctx0 (unparse d)) = math_nodes_of d.
@@ -348,3 +351,92 @@ Print Assumptions C10_modes_tolerant_nonvacuous.
 Print Assumptions C10_spec_discriminates.
 Print Assumptions C10_default_context_modes.
 Print Assumptions C10_dollars_token_nonvacuous.
+
+(** * C10_dollars for ALL dollar documents of the core grammar (composition with C02)
+
+    [Properties/C02.v: C02_parse_unparse_partial] gives the tree the strict
+    parser returns for every written document of the core document grammar
+    ([Doc/DocGrammar.v]) that satisfies [ok_doc].  A DOLLAR document
+    ([dollar_doc]) is a sequence of text runs [Text ws cs] and inline formulas
+    [Math ws MDollar body tr] (written [ws $ body tr $]) whose bodies are text
+    runs; [ok_doc] demands of it that no formula body is empty or begins with
+    [$] (an empty [$$] is the display delimiter) and that text characters are
+    inert.  For EVERY context and EVERY such document, of any size:
+
+    the parse succeeds, consumes the input, and the [dview] of its items (kind,
+    recorded mode, display flag, delimiters, characters; positions dropped) is
+    [dollar_spec d]: every maximal text run is one chars node in TEXT mode;
+    every formula is one math node recorded in TEXT mode, inline, delimiters
+    [$] [$], whose body is one chars node in MATH mode with delimiter [$]
+    carrying the body's characters.  Hence ([C10_dollars_math_nodes_partial])
+    the math nodes of the parse are exactly the formulas of the document, in
+    order — [$a$$b$] is two inline formulas, whatever comes before or after.
+
+    PARTIAL with respect to the DESIGN statement: the core grammar has no
+    [$$ .. $$] display item (those stay covered by [C10_dollars_bounded*] and
+    the token theorems), and formula bodies are text only. *)
+Theorem C10_dollars_grammar_partial : forall cx d, ok_doc cx d = true -> dollar_doc d = true ->
+  exists p e items,
+    parse_top (unparse d) false cx (walker_state cx) = Ok (ONode (Some (NList p e items))) (length (unparse d))
+    /\ map dviewo items = dollar_spec d.
+Proof. exact dollars_grammar. Qed.
+
+Theorem C10_dollars_math_nodes_partial : forall cx d, ok_doc cx d = true -> dollar_doc d = true ->
+  exists p e items,
+    parse_top (unparse d) false cx (walker_state cx) = Ok (ONode (Some (NList p e items))) (length (unparse d))
+    /\ filter is_dmath (map dviewo items)
+       = map (fun t => VMath text_mode false [36%N] [36%N] [VChars (math_mode (Some [36%N])) t])
+             (formulas (d_items d))
+    /\ Forall (fun t => t <> []) (formulas (d_items d)).
+Proof. exact dollars_math_nodes. Qed.
+
+(** the same at the level of the meaning function: any parsing state in text mode, any offset *)
+Theorem C10_dollars_tree_partial : forall cx ps pos d, ps_mode ps = text_mode -> dollar_doc d = true ->
+  map dviewo (fst (tree_of cx ps pos d)) = dollar_spec d.
+Proof. exact dollar_tree. Qed.
+
+(** C10's per-node specification instantiated on the meaning [tree_of] of EVERY
+    document of the core grammar (groups, macros with their argument deltas,
+    [$..$] [\(..\)] [\[..\]], comments, paragraph breaks): the tree is implied
+    w.r.t. text mode *)
+Theorem C10_modes_grammar : forall cx d, ok_doc cx d = true ->
+  implied cx text_mode (gen_nodelist 0 (fst (tree_of cx (walker_state cx) 0 d))).
+Proof. exact grammar_modes. Qed.
+
+(** non-vacuity: [$a$$b$] as a dollar document (two formulas, no text), and
+    [x $a b $ yz$\nc$\n] (text with whitespace on both sides, a formula with inner and trailing
+    whitespace, two adjacent text runs merged, a formula starting with a newline); [$$a$$]
+    is not a dollar document satisfying [ok_doc] (its first formula would be empty) *)
+Section DollarExample.
+  Open Scope N_scope.
+  Let dd : doc := {| d_items := [Math [] MDollar [Text [] [97]] []; Math [] MDollar [Text [] [98]] []];
+                     d_trail := [] |}.
+  Let de : doc := {| d_items := [Text [] [120]; Math [32] MDollar [Text [] [97]; Text [32] [98]] [32];
+                                 Text [32] [121]; Text [] [122]; Math [] MDollar [Text [10] [99]] []];
+                     d_trail := [10] |}.
+  Let bad : doc := {| d_items := [Math [] MDollar [] []; Text [] [97]; Math [] MDollar [] []]; d_trail := [] |}.
+  Example C10_dollars_grammar_nonvacuous :
+    ok_doc default_ctx dd = true /\ dollar_doc dd = true /\ unparse dd = [36;97;36;36;98;36]
+    /\ dollar_spec dd = [VMath text_mode false [36] [36] [VChars (math_mode (Some [36])) [97]];
+                         VMath text_mode false [36] [36] [VChars (math_mode (Some [36])) [98]]]
+    /\ ok_doc default_ctx de = true /\ dollar_doc de = true
+    /\ unparse de = [120; 32; 36; 97; 32; 98; 32; 36; 32; 121; 122; 36; 10; 99; 36; 10]
+    /\ dollar_spec de = [VChars text_mode [120; 32];
+                         VMath text_mode false [36] [36] [VChars (math_mode (Some [36])) [97; 32; 98; 32]];
+                         VChars text_mode [32; 121; 122];
+                         VMath text_mode false [36] [36] [VChars (math_mode (Some [36])) [10; 99]];
+                         VChars text_mode [10]]
+    /\ formulas (d_items de) = [[97; 32; 98; 32]; [10; 99]]
+    (* the theorem's conclusion checked independently by evaluation *)
+    /\ match parse_top (unparse de) false default_ctx (walker_state default_ctx) with
+       | Ok (ONode (Some (NList _ _ l))) p => Some (map dviewo l, p)
+       | _ => None end = Some (dollar_spec de, 16%nat)
+    /\ unparse bad = [36;36;97;36;36] /\ dollar_doc bad = true /\ ok_doc default_ctx bad = false.
+  Proof. vm_compute. repeat split. Qed.
+End DollarExample.
+
+Print Assumptions C10_dollars_grammar_partial.
+Print Assumptions C10_dollars_math_nodes_partial.
+Print Assumptions C10_dollars_tree_partial.
+Print Assumptions C10_modes_grammar.
+Print Assumptions C10_dollars_grammar_nonvacuous.
